@@ -98,7 +98,7 @@ def runInvs (fs : FS) : List String → List String
   | a :: rest =>
     let inv := parseArgs (if a == "-" then [] else a.splitOn " ") {}
     let (out, w) := push inv.cfg { fs := fs }
-    let r := s!"exit={out.exit};tree={renderTree w.fs};newino={newInodes fs w.fs};same={boolS (sameFS fs w.fs)};twin=ok"
+    let r := s!"exit={out.exit};tree={renderTree w.fs};newino={newInodes fs w.fs};same={boolS (sameFS fs w.fs)};twin=ok;outside=ok"
     r :: runInvs w.fs rest
 
 /-- drop the `same=` field (full metadata equality incl. mtime: only meaningful for C10) -/
@@ -140,6 +140,14 @@ def specVerdict (fs0 : FS) (invs impl : List String) : String := Id.run do
     fs := parseTree implTree
   return "ok"
 
+/-- C19 on the implementation: nothing outside the working directory appeared, vanished or changed -/
+def c19 (impl : List String) : String :=
+  if impl.all (fun r => fieldOf r "outside" == "ok") then "ok" else "FAIL:touched-outside"
+
+/-- C11 on the implementation: the tool exits with 0 or 1, never by a crash -/
+def c11 (impl : List String) : String :=
+  if impl.all (fun r => fieldOf r "exit" == "0" || fieldOf r "exit" == "1") then "ok" else "FAIL:crash"
+
 def step (fields : List String) : String :=
   match fields with
   | _ :: cid :: tree :: rest =>
@@ -149,7 +157,7 @@ def step (fields : List String) : String :=
     let eqs := (m.zip impl).map (fun (a, b) => dropSame a == dropSame b)
     let firstBad := (eqs.zipIdx.find? (fun (e, _) => !e)).map (·.2)
     let ok := m.length == impl.length && eqs.all (fun b => b)
-    s!"{cid} eq={boolS ok} firstbad={optNatS firstBad} SPEC={specVerdict (parseTree tree) invs impl} C10={c10 invs impl} C15={c15 impl} model={"|".intercalate m}"
+    s!"{cid} eq={boolS ok} firstbad={optNatS firstBad} SPEC={specVerdict (parseTree tree) invs impl} C10={c10 invs impl} C15={c15 impl} C19={c19 impl} C11={c11 impl} model={"|".intercalate m}"
   | _ => "bad-line"
 
 end RQ.PushEngine
